@@ -64,6 +64,11 @@ def main():
     cur = None
     if cfg.get("timedep_current"):
         cur = lambda t: {"source": 2.0 + np.sin(3 * t), "drain": -(2.0 + np.sin(3 * t))}
+    elif cfg.get("pulsed_current"):
+        # zero bias except for one short pulse (1 % of the run): nothing that samples the drive at random times
+        # may decide how it is applied
+        T_ = cfg.get("T", 0.15)
+        cur = lambda t: {"source": (6.0 if 0.4 * T_ <= t < 0.41 * T_ else 0.0), "drain": -(6.0 if 0.4 * T_ <= t < 0.41 * T_ else 0.0)}
     elif cfg.get("currents4"):
         cur = dict(zip(["source", "drain", "top", "bottom"], cfg["currents4"]))
     elif cfg.get("current"):
